@@ -311,9 +311,14 @@ func (bs *baseServer) Handshake(transportName string, ctx *types.HttpContext) (*
 
 	transport.On("headers", func(args ...any) {
 		headers, req := args[0].(*utils.ParameterBag), args[1].(*types.HttpContext)
-		if !ctx.Query().Has("sid") {
+		// the request being answered (not the handshake request captured above) decides: only the response to the
+		// request without a session id is the handshake response
+		if !req.Query().Has("sid") {
 			if cookie := bs.opts.Cookie(); cookie != nil {
-				headers.Set("Set-Cookie", cookie.String())
+				// the configured cookie is shared by all sessions: the session id goes into a copy
+				sessionCookie := *cookie
+				sessionCookie.Value = id
+				headers.Set("Set-Cookie", sessionCookie.String())
 			}
 			bs.Emit("initial_headers", headers, req)
 		}
